@@ -77,6 +77,36 @@ def part_numbers(ctx):
             ctx.sample({'a': repr(a), 'b': repr(b), 'max': mx, 'impl': d, 'model': model[i] if model else None})
 
 
+def part_vectorised(ctx):
+    """the bulk form of the number distance (numpy arrays, used for pairing when several numbers of one type are unmatched on both sides)
+    gives, pair by pair, what the scalar form gives: within [0, max], 0 only for equal numbers"""
+    import numpy as np
+    from deepdiff.distance import _get_numbers_distance, _get_numpy_array_distance
+    for mx in (0.3, 1, 0.6, 0.1):
+        xs, ys = [], []
+        for k in range(1, 6):
+            xs += [13.0 * k, 5.0 * k, float(k), -2.0 * k, 0.0, 7.5]; ys += [-7.0 * k, 0.0, float(k), 3.0 * k, 0.0, 7.25]
+        # pairs with a - b == (a + b) / max: a = (1 + max) t, b = (max - 1) t
+        for t in (1.0, 2.0, 10.0, 0.5):
+            xs.append((1 + mx) * t * 10); ys.append((mx - 1) * t * 10)
+        for _ in range(60 if ctx.thorough() else 15):
+            xs.append(float(ctx.rng.randint(-50, 50))); ys.append(float(ctx.rng.randint(-50, 50)))
+        got = _get_numpy_array_distance(np.array(xs), np.array(ys), max_=mx)
+        for a, b, g in zip(xs, ys, got):
+            ctx.evaluations += 1
+            ctx.count('vectorised')
+            case = {'kind': 'numbers (vectorised)', 'a': repr(a), 'b': repr(b), 'max': mx}
+            want = _get_numbers_distance(a, b, mx)
+            if a != b:
+                ctx.nontriv(('vec', a, b, mx))
+            if not (0 <= g <= mx):
+                ctx.violate(case, 'vectorised distance %r outside [0, %r]' % (float(g), mx))
+            elif (g == 0) != (a == b):
+                ctx.violate(case, 'vectorised distance %r but a == b is %r' % (float(g), a == b))
+            elif abs(float(g) - want) > 1e-9:
+                ctx.violate(case, 'vectorised distance %r, scalar distance %r' % (float(g), want))
+
+
 def part_nonfinite(ctx):
     """inf and nan operands (outside the rational model): the pairing distance still is a number in [0, max], the
     deep distance a number in [0, 1]"""
@@ -357,6 +387,7 @@ def part_deep(ctx):
 
 def run(ctx, impl_only=False):
     part_numbers(ctx)
+    part_vectorised(ctx)
     part_nonfinite(ctx)
     wit = part_typed(ctx)
     part_root_numbers(ctx)
